@@ -13,6 +13,7 @@ CONSTANTS
   AllowDecor = TRUE
   OnExcChoices = {TRUE}
   PreForceChoices = {FALSE}
+  XfDecChoices = {FALSE}
   StepOps = {"addCleanup"}
   AllowMulti = FALSE
   Variant = "asRequired"
@@ -20,7 +21,7 @@ CONSTANTS
   GatherOf <- MCGatherOf
   CleanOf <- MCCleanOf
   FixtureSetUpFails <- MCFixtureSetUpFails
-  FixtureFailCount <- MCFixtureFailCount
+  FixtureFailKinds <- MCFixtureFailKinds
   FixtureCleanKind <- MCFixtureCleanKind
   FixtureGatherRaises <- MCFixtureGatherRaises
   FixtureDetails <- MCFixtureDetails
